@@ -35,6 +35,7 @@ func checkC09(c *Ctx) {
 	c.Rule("C09.R3", "in the PROJ.4 string parser every parameter that proj4js multiplies by D2R ends up multiplied by deg2rad exactly once on every path of its case, and no other numeric parameter is")
 	c.Rule("C09.R6", "7-parameter datum shift: on every path the three output ordinates are computed simultaneously from the same inputs (no output is an operand of another); each output is +1·own ordinate ± p[3+k]·other ordinate (k the third axis) with an antisymmetric coupling matrix, translated by p[axis]; the inverse shift uses the transposed matrix, the opposite translation sign and divides by the scale the forward one multiplies by")
 	c.Rule("C09.R7", "eccentricity arguments: with SR.E : e, SR.Es : e², sqrt(e²) : e, e·e : e², 1−(B/A)² : e², every helper parameter receives the same one of the two at all typed call sites")
+	c.Rule("C09.R8", "the NewTransform pipeline applies each reference's parameters once and mirrored around the datum shift (unit, prime meridian, angle unit, projection member, axis), and every source-side stage reads the one reference the coordinates are currently expressed in")
 	c.Rule("C09.R4", "a coordinate produced by one datum shift (which yields a height) is not narrowed to a 2-argument Transformer result and fed to a second datum shift within one transformation")
 	p := c.P.Pkg("proj")
 	if p == nil {
@@ -49,6 +50,11 @@ func checkC09(c *Ctx) {
 	a.twoDHop()
 	c.exhaust = true
 	a.helmert()
+	// R8: the pipeline around the datum shift (C08.R2's analysis, filed here)
+	c.Alias("C08.R2", "C09.R8")
+	c08mirror(c)
+	c.Alias("C08.R2", "")
+	c.Floor("C09.R8", 6)
 	a.eccentricity()
 	c.Floor("C09.R7", 8)
 	c.Floor("C09.R6", 8)
